@@ -732,7 +732,7 @@ def stmt_label(st, args, par, k):
         lab += ",variable exponent" if not all_zero_derivs(args[1]) else ",constant exponent %s" % (
             "1" if xs[1] == 1 else "0" if xs[1] == 0 else "2" if xs[1] == 2 else "integer" if xs[1] == int(xs[1]) else "non-integer")
     if op == "Tanh":
-        lab = "|x|<=4" if abs(xs[0]) <= 4 else "|x|>4"
+        lab = "|x|<=2" if abs(xs[0]) <= 2 else "2<|x|<=4" if abs(xs[0]) <= 4 else "|x|>4"
     if op in ("BesselI", "LogBesselI"):
         v = float(par)
         lab = ("v=%g" % v if v in (0, 1, 2) else "0<v<2" if v < 2 else "v>2") + (",x/v<0.25" if (v > 0 and xs[0] / v < 0.25) else "")
@@ -742,7 +742,7 @@ def stmt_label(st, args, par, k):
     if op == "Log1pExp" and lab == "(-37,18]":
         lab = "(-37,4]" if xs[0] <= 4 else "(4,18]"
     if op == "LogErfc" and lab == "x in (0.157,8]":
-        lab = "x in (0.157,3]" if xs[0] <= 3 else "x in (3,8]"
+        lab = "x in (0.157,1]" if xs[0] <= 1 else "x in (1,3]" if xs[0] <= 3 else "x in (3,8]"
     if op in ("LogAdd", "LogSub") and (xs[0] == float("-inf") or xs[1] == float("-inf")):
         lab = "operand=-Inf"
     return lab
@@ -825,7 +825,7 @@ def judge_program(ev, out):
         rn_, ro_ = rec.get("n", 0), rec.get("o", 0)
         if ro_ > want_o or (ro_ >= 1 and rn_ > want_n):
             # derivative state that cannot come from the operands: left over in the receiver
-            viol("local", op, st.get("stale", "clean"), "order",
+            viol("local", "Reset-based accumulation", st.get("stale", "clean"), "order",
                  "statement %d (%s): the result reports N=%d, order=%d; its operands carry N=%d, order=%d (state before the call: %s)" % (
                      si, op, rn_, ro_, want_n, want_o, st.get("stale", "clean")), si)
             cov["skipped:contaminated-by-stale-receiver"] += 1
